@@ -260,13 +260,18 @@ impl<'a, W: Write> Writer<'a, W> {
     /// written, then call [`flush`](Writer::flush).
     pub fn unvalidated_append_value_ref(&mut self, value: &Value) -> AvroResult<usize> {
         let n = self.maybe_write_header()?;
-        encode_internal(
+        let buffer_len = self.buffer.len();
+        if let Err(error) = encode_internal(
             value,
             self.schema,
             self.resolved_schema.get_names(),
             self.schema.namespace(),
             &mut self.buffer,
-        )?;
+        ) {
+            // Remove the partially encoded value, otherwise it would end up in the block
+            self.buffer.truncate(buffer_len);
+            return Err(error);
+        }
 
         self.num_values += 1;
 
@@ -295,11 +300,13 @@ impl<'a, W: Write> Writer<'a, W> {
             human_readable: self.human_readable,
         };
 
-        value.serialize(SchemaAwareSerializer::new(
-            &mut self.buffer,
-            self.schema,
-            config,
-        )?)?;
+        let buffer_len = self.buffer.len();
+        let serializer = SchemaAwareSerializer::new(&mut self.buffer, self.schema, config)?;
+        if let Err(error) = value.serialize(serializer) {
+            // Remove the partially serialized value, otherwise it would end up in the block
+            self.buffer.truncate(buffer_len);
+            return Err(error);
+        }
         self.num_values += 1;
 
         if self.buffer.len() >= self.block_size {
